@@ -110,7 +110,23 @@ fn extra_builtins() -> Vec<(String, std::sync::Arc<Router<u8>>)> {
 }
 
 fn find_extra_builtins() -> Vec<(String, std::sync::Arc<Router<u8>>)> {
-    let src = std::fs::read_to_string("/repo/src/constraints.rs").unwrap_or_default();
+    // every source file of the crate (the table of built-ins may move in a reorganisation of the modules)
+    fn walk(dir: &std::path::Path, out: &mut String) {
+        if let Ok(rd) = std::fs::read_dir(dir) {
+            let mut es: Vec<_> = rd.flatten().map(|e| e.path()).collect();
+            es.sort();
+            for p in es {
+                if p.is_dir() {
+                    walk(&p, out);
+                } else if p.extension().map_or(false, |x| x == "rs") {
+                    out.push_str(&std::fs::read_to_string(&p).unwrap_or_default());
+                    out.push('\n');
+                }
+            }
+        }
+    }
+    let mut src = String::new();
+    walk(std::path::Path::new("/repo/src"), &mut src);
     let re = regex::Regex::new(r#"const\s+NAME\s*:\s*&'static\s+str\s*=\s*"([A-Za-z0-9_.-]+)""#).unwrap();
     let mut out = vec![];
     for c in re.captures_iter(&src) {
@@ -579,7 +595,32 @@ impl Exec {
             }
             ["clone", r, r2] => {
                 let (Some(r), Some(r2)) = (num(r), num(r2)) else { return bad() };
-                let Some(x) = self.routers.get(&r) else { return (line.to_owned(), "bad-router".to_owned()) };
+                if !self.routers.contains_key(&r) {
+                    return (line.to_owned(), "bad-router".to_owned());
+                }
+                // onto a router that exists already: `Clone::clone_from` (a hand-written one may reuse what is there)
+                if r2 != r {
+                    if let Some(mut dest) = self.routers.remove(&r2) {
+                        self.bump("clone_from");
+                        let x = &self.routers[&r];
+                        return match catch_unwind(AssertUnwindSafe(|| {
+                            dest.router.clone_from(&x.router);
+                            dest.checks = x.checks.clone();
+                            dest.types = x.types.clone();
+                            dest.live = x.live.clone();
+                            dest.ever = x.ever.clone();
+                            dest.extra = x.extra.clone();
+                            dest
+                        })) {
+                            Ok(c) => {
+                                self.routers.insert(r2, c);
+                                (line.to_owned(), "ok".to_owned())
+                            }
+                            Err(p) => (line.to_owned(), panic_msg(p)),
+                        };
+                    }
+                }
+                let x = &self.routers[&r];
                 match catch_unwind(AssertUnwindSafe(|| x.clone())) {
                     Ok(c) => {
                         self.routers.insert(r2, c);
@@ -680,8 +721,23 @@ impl Exec {
         }
     }
 
+    /// without the hook the parser is observed through the public API: `insert` into a router that knows nothing —
+    /// a template error comes back whole (payload and rendering); anything else means the parser accepted the text,
+    /// but its expansions and parts cannot be seen (`no-hook`)
     #[cfg(not(feature = "hook"))]
-    fn parse(&mut self, _idx: usize, _t: &[u8]) -> String {
-        "no-hook".to_owned()
+    fn parse(&mut self, idx: usize, t: &[u8]) -> String {
+        let Ok(text) = std::str::from_utf8(t) else { return "no-hook".to_owned() };
+        match catch_unwind(|| Router::<u32>::new().insert(text, 0)) {
+            Ok(Err(InsertError::Template(e))) => {
+                let rendered = match catch_unwind(AssertUnwindSafe(|| e.to_string())) {
+                    Ok(s) => s,
+                    Err(p) => return panic_msg(p),
+                };
+                check_caret(idx, &e, &rendered, &mut self.oracle);
+                format!("err {} R={}", show_terr(&e), hex(rendered.as_bytes()))
+            }
+            Ok(_) => "accepted-no-hook".to_owned(),
+            Err(p) => panic_msg(p),
+        }
     }
 }
